@@ -2,6 +2,7 @@
 #include "harness.h"
 #include <vector>
 #include "bitserializer/conversion_detail/convert_utf.h"
+#include "bitserializer/convert.h"
 
 using namespace vh;
 namespace U = BitSerializer::Convert::Utf;
@@ -134,6 +135,56 @@ Register r3("utf.enc", [](const Tokens& t) -> std::string {
 	if (dst == "32le") return encFrom<U::Utf32Le, std::u32string>(t, wi);
 	if (dst == "32be") return encFrom<U::Utf32Be, std::u32string>(t, wi);
 	throw BadOp("dst");
+});
+
+// utf.convert <wi> <wo> <form> <out0> <in>: Convert::To<TOut>(source) between the string types; form = str (std::basic_string),
+// view (std::basic_string_view over a buffer of exactly the input's size), cstr (NUL-terminated pointer; inputs without U+0000 only),
+// out0 != "-" passes an existing string as the init-argument (the result is appended to it). Answer: "ok <units>" | "exc"
+template <class TIn, class TOut>
+std::string convertStr(const Tokens& t) {
+	namespace C = BitSerializer::Convert;
+	const TIn in = toStr<TIn>(parseUnits(t[5]));
+	const TOut out0 = toStr<TOut>(parseUnits(t[4]));
+	const bool withInit = t[4] != "-";
+	try {
+		TOut out;
+		if (t[3] == "str") {
+			if constexpr (std::is_same_v<TIn, TOut>) { throw BadOp("same type"); }
+			else { out = withInit ? C::To<TOut>(in, out0) : C::To<TOut>(in); }
+		}
+		else if (t[3] == "view") {
+			const std::vector<typename TIn::value_type> buf(in.begin(), in.end());
+			const std::basic_string_view<typename TIn::value_type> view(buf.data(), buf.size());
+			out = withInit ? C::To<TOut>(view, out0) : C::To<TOut>(view);
+		}
+		else if (t[3] == "cstr") {
+			if (in.find(typename TIn::value_type(0)) != TIn::npos) throw BadOp("NUL in a C string");
+			out = withInit ? C::To<TOut>(in.c_str(), out0) : C::To<TOut>(in.c_str());
+		}
+		else throw BadOp("form");
+		return "ok " + hexUnits(out);
+	}
+	catch (const std::invalid_argument&) { return "exc"; }
+}
+template <class TIn>
+std::string convertFrom(const Tokens& t, int wo, bool w) {
+	switch (wo) {
+	case 8: return convertStr<TIn, std::string>(t);
+	case 16: return convertStr<TIn, std::u16string>(t);
+	case 32: return w ? convertStr<TIn, std::wstring>(t) : convertStr<TIn, std::u32string>(t);
+	}
+	throw BadOp("wo");
+}
+Register r4("utf.convert", [](const Tokens& t) -> std::string {
+	if (t.size() != 6) throw BadOp("arity");
+	const bool wIn = t[1] == "w", wOut = t[2] == "w";
+	const int wi = wIn ? 32 : std::stoi(t[1]), wo = wOut ? 32 : std::stoi(t[2]);
+	switch (wi) {
+	case 8: return convertFrom<std::string>(t, wo, wOut);
+	case 16: return convertFrom<std::u16string>(t, wo, wOut);
+	case 32: return wIn ? convertFrom<std::wstring>(t, wo, wOut) : convertFrom<std::u32string>(t, wo, wOut);
+	}
+	throw BadOp("wi");
 });
 
 } // namespace
